@@ -151,6 +151,88 @@ func extraSchemas() []gschema.Schema {
 		)
 	}
 	out = append(out, gschema.WithSupport(gschema.Obj{Name: "Root", T: irgen.Inter(ref("S"), z)}))
+	out = append(out, unionRefSchemas()...)
+	return out
+}
+
+func constant(v string) gschema.Term { return gschema.Term{K: "const", A: "disc:" + v} }
+
+// unionObjects are named objects that are themselves unions: of several
+// constants of one underlying type, of one scalar kind under different
+// constraints, of distinct scalars, of references to structs.
+func unionObjects() map[string]gschema.Term {
+	cs := irgen.S("string")
+	cs.Constr = true
+	return map[string]gschema.Term{
+		"LV": irgen.Disj(constant("low"), constant("high")),
+		"LC": irgen.Disj(cs, irgen.S("bool")),
+		"LS": irgen.Disj(cs, irgen.S("string")),
+		"LU": irgen.Disj(irgen.S("string"), irgen.S("bool")),
+		"LD": {K: "disj", Sub: []gschema.Term{ref("S"), ref("T")}, Disc: true},
+	}
+}
+
+// unionRefSchemas: unions one of whose branches is a REFERENCE - to an object
+// that is itself a union (unionObjects), to an enum, to an alias, to a struct -
+// next to a scalar / constant / other reference branch, as a field, an array
+// item, a map value and as a named object; plus unions nested inline.
+func unionRefSchemas() []gschema.Schema {
+	uo := unionObjects()
+	with := func(root gschema.Term) gschema.Schema {
+		objs := []gschema.Obj{{Name: "Root", T: root}}
+		for _, n := range []string{"LV", "LC", "LS", "LU", "LD"} {
+			used := false
+			var walk func(t gschema.Term)
+			walk = func(t gschema.Term) {
+				if t.K == "ref" && t.A == gschema.Pkg+"."+n {
+					used = true
+				}
+				for _, x := range t.Sub {
+					walk(x)
+				}
+			}
+			walk(root)
+			if used {
+				objs = append(objs, gschema.Obj{Name: n, T: uo[n]})
+			}
+		}
+		return gschema.WithSupport(objs...)
+	}
+	i64, str, boolean := irgen.S("int64"), irgen.S("string"), irgen.S("bool")
+	unions := []gschema.Term{
+		irgen.Disj(ref("LV"), i64),
+		irgen.Disj(i64, ref("LV")),
+		irgen.Disj(ref("LV"), constant("mid")),
+		irgen.Disj(ref("LC"), i64),
+		irgen.Disj(ref("LS"), i64),
+		irgen.Disj(ref("LU"), i64),
+		irgen.Disj(ref("LV"), ref("LU")),
+		irgen.Disj(ref("E"), i64),
+		irgen.Disj(ref("N"), str),
+		irgen.Disj(ref("A"), i64),
+		irgen.Disj(ref("E"), ref("N")),
+		irgen.Disj(ref("LD"), str),
+		irgen.Disj(ref("S"), str),
+		irgen.Disj(irgen.Disj(constant("low"), constant("high")), i64),
+		irgen.Disj(irgen.Disj(str, boolean), i64),
+	}
+	var out []gschema.Schema
+	for _, u := range unions {
+		out = append(out, with(irgen.Struct1("f", true, u)), with(irgen.Struct1("f", false, u)))
+	}
+	for _, u := range unions[:2] {
+		out = append(out, with(irgen.Struct1("f", false, irgen.Array(u))), with(irgen.Struct1("f", false, irgen.Map(u))))
+	}
+	// the union as a named object, referred to by the root
+	for _, u := range []gschema.Term{unions[0], unions[3], unions[7]} {
+		s := with(irgen.Struct1("f", true, ref("LW")))
+		objs := append([]gschema.Obj{s.Objs[0], {Name: "LW", T: u}}, with(u).Objs[1:]...)
+		out = append(out, gschema.WithSupport(objs...))
+	}
+	// references to the union objects outside any union (neighbours / reductions)
+	for _, n := range []string{"LV", "LC", "LS", "LU"} {
+		out = append(out, with(irgen.Struct1("f", true, ref(n))), with(irgen.Struct1("f", false, ref(n))))
+	}
 	return out
 }
 
@@ -202,6 +284,18 @@ func twoPackageSchemas() []gschema.Schema {
 		// two objects called L, one in each package
 		gschema.WithSupport(gschema.Obj{Name: "Root", T: irgen.StructN([]irgen.Field{{Name: "a", Required: true}, {Name: "b", Required: false}}, []gschema.Term{ref("L"), ref("QL")})},
 			gschema.Obj{Name: "L", T: irgen.Struct1("g", true, irgen.S("string"))}, gschema.Obj{Name: "QL", T: irgen.Struct1("w", true, irgen.S("int64"))}),
+		// unions mixing a foreign reference with a local one / a scalar, and a
+		// reference to a union object of the other package
+		gschema.WithSupport(gschema.Obj{Name: "Root", T: irgen.Struct1("f", true, gschema.Term{K: "disj", Sub: []gschema.Term{ref("S"), ref("L")}, Disc: true})},
+			gschema.Obj{Name: "L", T: irgen.StructN([]irgen.Field{{Name: "kind", Required: true}, {Name: "w", Required: false}}, []gschema.Term{constant("l"), irgen.S("int64")})}),
+		gschema.WithSupport(gschema.Obj{Name: "Root", T: irgen.Struct1("f", true, gschema.Term{K: "disj", Sub: []gschema.Term{ref("L"), ref("S")}, Disc: true})},
+			gschema.Obj{Name: "L", T: irgen.StructN([]irgen.Field{{Name: "kind", Required: true}, {Name: "w", Required: false}}, []gschema.Term{constant("l"), irgen.S("int64")})}),
+		f1(irgen.Disj(ref("S"), irgen.S("string")), true),
+		f1(irgen.Disj(ref("E"), irgen.S("int64")), false),
+		gschema.WithSupport(gschema.Obj{Name: "Root", T: irgen.Struct1("f", true, irgen.Disj(ref("QV"), irgen.S("int64")))},
+			gschema.Obj{Name: "QV", T: irgen.Disj(constant("low"), constant("high"))}),
+		gschema.WithSupport(gschema.Obj{Name: "Root", T: irgen.Struct1("f", false, ref("QV"))},
+			gschema.Obj{Name: "QV", T: irgen.Disj(constant("low"), constant("high"))}),
 		// two fields, local and foreign
 		gschema.WithSupport(gschema.Obj{Name: "Root", T: irgen.StructN([]irgen.Field{{Name: "a", Required: true}, {Name: "b", Required: false}}, []gschema.Term{ref("S"), irgen.Array(ref("P"))})}),
 	}
